@@ -269,12 +269,14 @@ class Gen:
     def fields(self, n, maxdepth=4):
         return ('%d ' % n + ' '.join(self.field(0, maxdepth) for _ in range(n))).strip()
 
-    def event(self, widths=None):
+    def event(self, widths=None, at=None):
         r = self.rng
         lvl = r.choice(LEVELS)
         Y, M, D = r.choice([0, 1, 999, 1970, 2025, 9999, r.randint(0, 9999)]), r.randint(1, 12), r.randint(1, 28)
         h, m, s, ms = r.randint(0, 23), r.randint(0, 59), r.randint(0, 59), r.choice([0, 1, 9, 10, 99, 100, 999, r.randint(0, 999)])
         off = r.choice([0, 60, -480, 330, 765, -720])
+        if at:
+            Y, M, D, h, m, s, ms, off = at
         file = ''.join(r.choice('/abcdefghijklmnop_.-') for _ in range(r.choice([0, 1, 5, 20, 44, 45, 46, 47, 48, 60, 300])))
         if r.random() < 0.1:
             file = 'dir é/ファイル.go'
@@ -287,6 +289,18 @@ class Gen:
         return 'EV %s %d %d %d %d %d %d %d %d %s %d %d %s %s %s %s' % (
             lvl, Y, M, D, h, m, s, ms, off, hx(file.encode()), line, W, hx(tag.encode()), hx(ctx.encode()),
             self.fields(nctx, 2), self.fields(nf))
+
+    def same_instant_elsewhere(self, ev):
+        """the time tokens of an event that happens at the same instant (or within the same second / the next one) as `ev`, seen from another zone"""
+        import datetime
+        t = ev.split()
+        Y, M, D, h, m, s, ms, off = [int(x) for x in t[2:10]]
+        if not 2 <= Y <= 9998:
+            return None
+        r = self.rng
+        off2 = r.choice([o for o in (0, 60, -480, 330, 765, -720, 345, -210) if o != off])
+        d = datetime.datetime(Y, M, D, h, m, s) + datetime.timedelta(minutes=off2 - off, seconds=r.choice([0, 0, 0, 1, -1]))
+        return (d.year, d.month, d.day, d.hour, d.minute, d.second, r.choice([ms, 0, 999, r.randint(0, 999)]), off2)
 
     def deep_event(self, depth):
         """nested objects/arrays to a given depth (boundary stream)"""
